@@ -60,6 +60,7 @@ package disasm
 //@   modifies ghost.pos, ghost.snapLen, ghost.snapArr
 //@   requires ghost.pos == 0 && ghost.nlines >= 0 
 //@   calls p.parse in parseX86_64
+//@   ensures @owned {C16 C18} own(result0)
 //@   ghost ghost.snapLen = ite(ghost.pos == ghost.cut + 1, len(syscalls), ghost.snapLen) at loop 1 body
 //@   ghost ghost.snapArr = ite(ghost.pos == ghost.cut + 1, arr(syscalls), ghost.snapArr) at loop 1 body
 //@   ensures @monotone {C16} result1 == nil && 0 <= ghost.cut && ghost.cut < ghost.nlines ==> ghost.snapLen <= len(result0) && forall(j, 0, ghost.snapLen, result0[j] == ghost.snapArr[j])
@@ -79,6 +80,7 @@ package disasm
 //@     decreases ghost.nlines - ghost.pos
 
 //@ func ExtractSyscalls(arch *arch.Info, objDump string) ([]Syscall, error)   properties C16 C18
+//@   ensures @owned {C16 C18} own(result0)
 //@   requires arch != nil
 //@   requires ghost.pos == 0 && ghost.nlines >= 0 
 //@   modifies ghost.pos, ghost.snapLen, ghost.snapArr
